@@ -10,6 +10,7 @@ Oracle              : coq/Ref/Rfc9113Frame.v evaluated on the implementation's i
 """
 import json
 import os
+import re
 import sys
 
 try:
@@ -214,27 +215,32 @@ def replay(case):
 
 
 def load_corpus():
-    cases = []
+    """The committed corpus holds *inputs* (replay format); they are run through the current implementation."""
+    inputs = []
     if os.path.isdir(CORPUS):
         for fn in sorted(os.listdir(CORPUS)):
             if fn.endswith(".json"):
                 with open(os.path.join(CORPUS, fn)) as f:
-                    for c in json.load(f):
-                        cases.append(c)
+                    inputs.extend(json.load(f))
+    if not inputs:
+        return []
+    cases, _ = harness("replay", 0, len(inputs), input=("\n".join(json.dumps(c) for c in inputs) + "\n").encode())
+    for c, i in zip(cases, inputs):
+        c["tag"] = "corpus:" + i.get("tag", "")
     return cases
 
 
 def eval_bool(tag, fn_by_mode, cases):
-    """Evaluate a boolean Coq function on every case (grouped by function); returns failing indices."""
+    """Evaluate a boolean Coq function on every case (grouped by function); returns (failing indices, error log)."""
     failing, errs = [], None
     by_fn = {}
     for i, c in enumerate(cases):
         by_fn.setdefault(fn_by_mode[c["mode"]], []).append(i)
     for fn, idx in by_fn.items():
         terms = [TERM[cases[i]["mode"]](cases[i]) for i in idx]
-        # shards by size: big cases make Coq's parser the bottleneck
-        shard = 40 if fn != "check_serialize" and fn != "oracle_serialize" else 60
-        bad, err = common.coq_eval_failing("%s_%s" % (tag, fn), PREAMBLE, fn, terms, shard=shard)
+        # Coq's parser is the bottleneck: small shards keep all cores busy
+        per = max(6, min(40, len(terms) // (2 * common.NPROC) + 1))
+        bad, err = common.coq_eval_failing(re.sub(r"\W", "_", "%s_%s" % (tag, fn)), PREAMBLE, fn, terms, shard=per)
         if err:
             errs = (errs or "") + err
         failing.extend(idx[j] for j in bad)
@@ -324,24 +330,20 @@ def shrink_write(case, still_fails, budget=30):
 
 # ----------------------------------------------------------------------------------------------
 
-def known_deviation(rep, tag, cases):
-    """Cases the oracle classifies as a documented deviation are reported as known findings."""
-    hit, err = eval_bool(tag + "_dev", {m: "oracle_known" for m in TERM}, [c for c in cases if c["mode"] in
-                                                                            ("parse", "malformed", "readchunk", "replay_read")])
-    return hit
-
-
 def generate(tier, seed, salt=0):
     big = tier != "quick"
-    plan = [("parse", 9000 if big else 420), ("malformed", 7000 if big else 330),
-            ("readchunk", 1500 if big else 75), ("serialize", 6000 if big else 300),
-            ("writechunk", 3000 if big else 150)]
+    plan = [("parse", 9000 if big else 400), ("malformed", 8000 if big else 330),
+            ("readchunk", 1500 if big else 70), ("serialize", 6000 if big else 300),
+            ("writechunk", 3000 if big else 130)]
     cases, dist = [], {}
     for mode, n in plan:
         cs, summary = harness(mode, int(seed) + salt, n)
         cases.extend(cs)
         dist[mode] = summary
     return cases, dist
+
+
+READ_MODES = ("parse", "malformed", "readchunk", "replay_read")
 
 
 def correspond_framecodec(rep, tier, seed):
@@ -352,20 +354,32 @@ def correspond_framecodec(rep, tier, seed):
     failing, err = eval_bool("framecodec", CHECK, cases)
     if err:
         rep.violation("broken-correspondence", {"what": "coqc failed on generated cases", "log": err[-3000:]}, no_input=True)
+    # a read case whose header block leaves the modelled HPACK fragment (the model says EvUnsupported)
+    # is not a disagreement: it is outside the domain of this correspondence
+    out_of_model = []
+    fr = [i for i in failing if cases[i]["mode"] in READ_MODES]
+    if fr:
+        unsup, err2 = eval_bool("framecodec_sup", {m: "read_supported" for m in TERM}, [cases[i] for i in fr])
+        out_of_model = [fr[j] for j in unsup]
+        failing = [i for i in failing if i not in set(out_of_model)]
     counts = {}
     for c in cases:
         counts[c["mode"]] = counts.get(c["mode"], 0) + 1
     rep.correspondences.append({
-        "name": "framecodec", "cases": len(cases), "corpus_cases": ncorpus,
-        "nontrivial": sum(1 for c in cases if is_nontrivial(c)),
-        "disagreements": len(failing), "by_mode": counts, "distribution": dist,
+        "name": "framecodec", "cases": len(cases) - len(out_of_model), "corpus_cases": ncorpus,
+        "nontrivial": sum(1 for i, c in enumerate(cases) if is_nontrivial(c) and i not in set(out_of_model)),
+        "disagreements": len(failing), "out_of_model": len(out_of_model), "by_mode": counts, "distribution": dist,
         "rule": "parse/readchunk: streams of 1-6 well-formed frames of all ten types + unknown types written by the "
                 "harness' own frame writer (random flags incl. undefined bits, padding, priority, reserved bits, "
                 "CONTINUATION runs cut anywhere) under whole / byte-at-a-time / random chunkings with Pending between "
                 "reads; malformed: 30 classes of broken streams; serialize/writechunk: h2::frame values through "
                 "Codec::{poll_ready,buffer,flush} over scripted partial writes (vectored and not), several "
                 "max_send_frame_size values.  Non-trivial = at least one event / octet produced.  The model is "
-                "evaluated inside Coq (check_read / check_serialize / check_write)."})
+                "evaluated inside Coq (check_read / check_serialize / check_write).  out_of_model = header blocks "
+                "outside the literal HPACK fragment (only reachable by the bit-flip mutation)."})
+    if len(out_of_model) * 20 > len(cases):
+        rep.violation("broken-correspondence", {"what": "more than 5% of the cases fall outside the modelled HPACK fragment",
+                                                "out_of_model": len(out_of_model)}, no_input=True)
     rep.samples.extend(case_brief(c) for c in cases[ncorpus:ncorpus + 3])
     if failing:
         classify(rep, [cases[i] for i in failing[:6]], "model and implementation disagree")
@@ -429,7 +443,7 @@ def search_framecodec(rep, tier, seed, cases=None):
                 chunk_bad.append(i)
     # documented deviations are known findings, not violations
     known = {}
-    read_cases = [i for i, c in enumerate(cases) if c["mode"] in ("parse", "malformed", "readchunk", "replay_read")]
+    read_cases = [i for i, c in enumerate(cases) if c["mode"] in READ_MODES]
     for code, text in KNOWN.items():
         hit, _ = eval_bool("framecodec_known%d" % code, {m: "(oracle_known %d)" % code for m in TERM},
                            [cases[i] for i in read_cases])
